@@ -110,12 +110,7 @@ mutual
       Prog → Option (Sym × Nat) → Ty → Bool
     | .node f kids, parent, ty =>
       !(forbHit dsl parent f) &&
-      wtHeadsT dsl request vis kids f (candidates dsl.prims request ty)
-  def wtHeadsT (dsl : Dsl) (request : Ty) (vis : Sym × Nat → Option (Sym × Nat)) :
-      List Prog → Sym → List (Sym × List Ty) → Bool
-    | _, _, [] => false
-    | kids, f, c :: cs =>
-      (c.1 == f && wtTList dsl request vis kids f 0 c.2) || wtHeadsT dsl request vis kids f cs
+      (candidates dsl.prims request ty).any (fun c => c.1 == f && wtTList dsl request vis kids f 0 c.2)
   def wtTList (dsl : Dsl) (request : Ty) (vis : Sym × Nat → Option (Sym × Nat)) :
       List Prog → Sym → Nat → List Ty → Bool
     | [], _, _, [] => true
